@@ -64,6 +64,9 @@ def main():
             finish(0)
 
     def finish(code):
+        import shutil
+
+        shutil.rmtree(corpus, ignore_errors=True)
         json.dump(
             {
                 "available": True,
@@ -85,11 +88,8 @@ def main():
     argv = [sys.argv[0], f"-runs={runs}", f"-seed={seed}", "-max_len=8192", "-len_control=0", "-print_final_stats=0", "-verbosity=0", corpus]
     atheris.Setup(argv, target)
     try:
-        atheris.Fuzz()  # returns or exits when -runs is reached
+        atheris.Fuzz()  # libFuzzer exits the process after -runs; `target` writes the summary before that
     finally:
-        import shutil
-
-        shutil.rmtree(corpus, ignore_errors=True)
         finish(0)
 
 
